@@ -6,13 +6,7 @@ Import ListNotations.
 Require Import MS.Model.Ticks MS.Model.TicksPF.
 Local Open Scope Z_scope.
 
-(** guard (complement of finding class F1) on the mirror: the tick's exact position is not in the
-    last 10 ns of the second *)
-Definition guard_1sec_pf (o : Z) : bool := tick_pos_ns 86400 (enc_pf 86400 o) mod 1000000000 <? 999999990.
-
-Definition rt_ok (o : Z) : bool :=
-  let k := enc_pf 86400 o in
-  negb (tick_pos_ns 86400 k mod 1000000000 <? 999999990) || (dec_offset_pf 86400 k =? o).
+Definition rt_ok (o : Z) : bool := dec_offset_pf 86400 (enc_pf 86400 o) =? o.
 
 Fixpoint sweep_ok (fuel : nat) (o : Z) : bool :=
   match fuel with O => true | S f => rt_ok o && sweep_ok f (o + 1) end.
@@ -27,11 +21,8 @@ Proof.
     apply (IH (lo + 1) Hr). rewrite Nat2Z.inj_succ in Ho. lia.
 Qed.
 
-Lemma rt_ok_spec o : rt_ok o = true -> guard_1sec_pf o = true -> dec_offset_pf 86400 (enc_pf 86400 o) = o.
-Proof.
-  unfold rt_ok, guard_1sec_pf. cbn zeta. intros H G. rewrite G in H. cbn [negb orb] in H.
-  apply Z.eqb_eq in H. exact H.
-Qed.
+Lemma rt_ok_spec o : rt_ok o = true -> dec_offset_pf 86400 (enc_pf 86400 o) = o.
+Proof. unfold rt_ok. apply Z.eqb_eq. Qed.
 
 Definition block : Z := 100000.
 (** the blocks covered in the quick tier (start offsets; each [block] long) *)
